@@ -89,8 +89,8 @@ func recvName(fd *ast.FuncDecl) string {
 
 type lockWalker struct {
 	p       *pkgInfo
-	tracked map[string]bool                       // struct type names
-	methods map[string]map[string]*ast.FuncDecl   // type -> method -> decl
+	tracked map[string]bool                     // struct type names
+	methods map[string]map[string]*ast.FuncDecl // type -> method -> decl
 	memo    map[string][]lockEv
 	busy    map[string]bool
 	// alts: the complete event lists of the paths of the method being walked that END EARLY (an
@@ -1050,6 +1050,9 @@ func genFactsLock(repo, out string) error {
 		}
 	}
 	sort.Strings(ms)
+	if len(ms) == 0 {
+		return emptyTable("facts_lock", "FactsLock.streamMethods", "C17 footprint_covers_code", "stream.Stream has no exported method")
+	}
 	for i, m := range ms {
 		f := fw.footOf(m)
 		sep := ","
@@ -1078,6 +1081,9 @@ func genFactsLock(repo, out string) error {
 		}
 		return sites[i].what < sites[j].what
 	})
+	if len(sites) == 0 {
+		return emptyTable("facts_lock", "FactsLock.authSites", "C17 config_not_written (authSitesOK)", "no NewAuthenticator call site found in security/ client/ server/ ccb/")
+	}
 	b.WriteString("/-- (c) NewAuthenticator call sites / ServerConfigForCommand providers: (file, function, what, copy|shared) -/\n")
 	b.WriteString("def authSites : List (String × String × String × String) := [\n")
 	for i, s := range sites {
@@ -1119,6 +1125,9 @@ func genFactsLock(repo, out string) error {
 		}
 		return gl[i].kind < gl[j].kind
 	})
+	if len(gl) == 0 {
+		return emptyTable("facts_lock", "FactsLock.globals", "C17 globals_once", "no access to a package-level variable of security/session_manager.go found (file renamed?)")
+	}
 	b.WriteString("/-- (e) accesses to the package-level variables of session_manager.go: (variable, function, kind) -/\n")
 	b.WriteString("def globals : List (String × String × String) := [\n")
 	var seen = map[globalAcc]bool{}
@@ -1160,6 +1169,10 @@ func genFactsLock(repo, out string) error {
 				return true
 			})
 		}
+	}
+	if len(rc) == 0 {
+		return emptyTable("facts_lock", "FactsLock.resumeCacheCalls", "C17 resumption_path_never_stores",
+			"no SessionCache method call found in security.handleSessionResumption / resumeSession (functions renamed?)")
 	}
 	sort.Strings(rc)
 	b.WriteString(strings.Join(rc, ",\n"))
